@@ -257,6 +257,15 @@ pub fn record_c15(a: &Args) -> usize {
             }
         }
     }
+    // a frame of every data length 0..=255, each followed by another frame and a trailing byte (fragment limits rotate)
+    for len in 0..=255usize {
+        if len % 8 == 0 {
+            out.balance();
+        }
+        let d: Vec<u8> = (0..len).map(|i| (i * 11 + len) as u8).collect();
+        let src = cat(&[&Enc(len as u16, 0, d).to_bytes_with_newline(), &f2.to_bytes_with_newline(), b"x"]);
+        n += run_reads(&mut out, &src, [usize::MAX, 1, 255, 256, 16][len % 5], vec![], None, 4);
+    }
     // interrupt storms: very many interrupted reads within one frame read (they must stay invisible however often they occur)
     {
         let big = Enc(0xABCD, 0x11, (0..255).map(|x| (x * 3) as u8).collect::<Vec<u8>>()).to_bytes_with_newline();
@@ -318,12 +327,13 @@ pub fn record_c15(a: &Args) -> usize {
     }
     // writing: every frame below x sink limit x interrupt / zero / hard error at every call
     let mut frames = vec![wf1, wf2, wf3, j::mk_frame(0x1234, 0, &(0..16).collect::<Vec<u8>>())];
-    if thorough {
-        frames.push(j::mk_frame(0xABCD, 0xEE, &(0..255).map(|x| x as u8).collect::<Vec<u8>>()));
-    }
+    // long frames (their encodings exceed 256 and 512 bytes)
+    frames.push(j::mk_frame(0xABCD, 0xEE, &(0..255).map(|x| x as u8).collect::<Vec<u8>>()));
+    frames.push(j::mk_frame(0x0102, 0x00, &(0..122).map(|x| (x * 2) as u8).collect::<Vec<u8>>()));
+    frames.push(j::mk_frame(0x0102, 0x00, &(0..128).map(|x| (x * 3) as u8).collect::<Vec<u8>>()));
     for f in &frames {
         let total = f.to_bytes_with_newline().len();
-        let limits: Vec<usize> = if total > 100 { vec![1, 7, 600] } else { vec![1, 2, 3, 5, 600] };
+        let limits: Vec<usize> = if total > 100 { if thorough { vec![1, 7, 100, 256, 600] } else { vec![100, 256, 600] } } else { vec![1, 2, 3, 5, 600] };
         for &limit in &limits {
             let ncalls = (total + limit - 1) / limit + 2;
             let ncalls = ncalls.min(if thorough { 80 } else { 24 });
@@ -395,11 +405,12 @@ pub struct PortState {
     pub io_fail_at: Option<usize>, // index of the read/write call that fails hard
     pub t0: Instant,
     pub read_latency: Option<Duration>, // the reply arrives this late
+    pub fail_writes: usize,             // the next N write calls fail hard
 }
 
 impl PortState {
     pub fn new(line: Line) -> Self {
-        PortState { line, timeout: None, fail: "none".into(), fail_kind: 0, dev_log: vec![], rx: VecDeque::new(), tx: vec![], io_log: vec![], io_calls: 0, io_fail_at: None, t0: Instant::now(), read_latency: None }
+        PortState { line, timeout: None, fail: "none".into(), fail_kind: 0, dev_log: vec![], rx: VecDeque::new(), tx: vec![], io_log: vec![], io_calls: 0, io_fail_at: None, t0: Instant::now(), read_latency: None, fail_writes: 0 }
     }
     fn now(&self) -> u64 {
         self.t0.elapsed().as_micros() as u64
@@ -517,7 +528,8 @@ impl Write for IPort {
             let t0 = s.now();
             let i = s.io_calls;
             s.io_calls += 1;
-            if s.io_fail_at == Some(i) {
+            if s.io_fail_at == Some(i) || s.fail_writes > 0 {
+                s.fail_writes = s.fail_writes.saturating_sub(1);
                 let t1 = s.now();
                 s.io_log.push(json!({"e": "pw", "data": j::bytes(buf), "ret": -2, "t0": t0, "t1": t1}));
                 return Err(io::Error::new(io::ErrorKind::Other, "injected write failure"));
@@ -752,6 +764,26 @@ fn reply_tapes(rng: &mut StdRng, own: u16) -> Vec<Vec<u8>> {
         firsts.push(t);
         let mut t = valid.clone();
         t.push(junk);
+        t.extend_from_slice(b"\r\n");
+        firsts.push(t);
+    }
+    // very long reply lines: noise longer than the longest legal frame followed by a valid frame on the same line;
+    // a well-formed line with 256 + k data pairs whose length field is k and whose checksum is right
+    for noise_len in [523usize, 524, 600, 2000] {
+        let mut t: Vec<u8> = (0..noise_len).map(|i| b"0123456789ABCDEFxyz:"[i % 20]).collect();
+        t.extend_from_slice(&valid);
+        t.extend_from_slice(b"\r\n");
+        firsts.push(t);
+    }
+    for count in [256usize, 257, 300] {
+        let mut payload = vec![(count % 256) as u8, (own >> 8) as u8, own as u8, 0x04];
+        payload.extend((0..count).map(|i| if i == 0 { 0x07 } else { 0u8 }));
+        let sum = payload.iter().fold(0u8, |a, &b| a.wrapping_add(b));
+        payload.push(0u8.wrapping_sub(sum));
+        let mut t = vec![b':'];
+        for b in &payload {
+            t.extend_from_slice(format!("{:02X}", b).as_bytes());
+        }
         t.extend_from_slice(b"\r\n");
         firsts.push(t);
     }
